@@ -359,3 +359,78 @@ def redefinition_stream(ck, rng, n_regs, oracle, tag):
             first = first or dict(rp0, case=desc[bad[0]], coq_case=cases[bad[0]])
         ck.count("generated registries with a rewriting context")
     return total, nbad, first
+
+
+# ---------------------------------------------------------------- aliases added at run time, after earlier lookups
+def runtime_alias_stream(ck, rng, n_regs, oracle, tag):
+    """A registry that was already asked about the prefixed / plural spellings of a name that did not exist yet,
+    and is then given `@alias unit = name` at run time, must convert those spellings like a registry that read
+    the alias line in its definition file (B) — whose factors are compared with the Coq model of B's text."""
+    import pint
+    total, nbad, first = 0, 0, None
+    for gi in range(n_regs):
+        lines = gen_definition_lines(rng)
+        cand = [l.split(" = ")[0] for l in lines if l.startswith("u") and "x = " in l]
+        added = []
+        for j, nm in enumerate(rng.sample(cand, min(2, len(cand)))):
+            added.append((nm, f"zq{gi}n{j}"))
+        A = _load_text(lines)
+        alias_lines = [f"@alias {nm} = {al}" for nm, al in added]
+        B, raw_b = load_generated(lines + alias_lines)
+        pre = ["", "kilo", "milli", "mega", "demi", "semi", "k", "m", "M"]
+        derived = [p + al + pl for _, al in added for p in pre for pl in ("", "s")]
+        sp = spellings(A)
+        warmed = []
+        for c in rng.sample(derived, rng.randint(0, len(derived))):       # asked BEFORE the alias exists
+            how = rng.choice(["in", "get_name", "parse_units", "parse_unit_name", "convert"])
+            try:
+                if how == "in":
+                    c in A
+                elif how == "get_name":
+                    A.get_name(c)
+                elif how == "parse_units":
+                    A.parse_units(c)
+                elif how == "parse_unit_name":
+                    A.parse_unit_name(c)
+                else:
+                    A.convert(F(1), c, rng.choice(sp))
+            except Exception:
+                pass
+            warmed.append([how, c])
+        for _ in range(6):
+            try:
+                A.convert(F(1), rng.choice(sp), rng.choice(sp))
+            except Exception:
+                pass
+        for l in alias_lines:
+            A.define(l)
+        rp0 = {"definitions": lines, "asked_before_the_alias": warmed, "then_defined": alias_lines}
+        cases, desc = [], []
+        for c in derived:
+            tgt = rng.choice([nm for nm, al in added if al in c] + [rng.choice(sp)])
+            res = []
+            for reg in (A, B):
+                try:
+                    res.append(reg.convert(F(3), c, tgt))
+                except pint.errors.DimensionalityError:
+                    res.append("DimensionalityError")
+                except pint.errors.UndefinedUnitError:
+                    res.append("UndefinedUnitError")
+            x, y = res
+            oracle(x == y and type(x) is type(y), f"runtime-alias:{tag}:factor",
+                   f"after `{'; '.join(alias_lines)}` at run time: 3 {c} -> {tgt} = {x}; a registry that read the same lines from its file gives {y}", dict(rp0, a=c, b=tgt))
+            if not isinstance(x, str):
+                cases.append(f"RFactor {coq_uc({c: F(1)})} {coq_uc({tgt: F(1)})} {outcome_of_number(F(x) / 3)}"); desc.append({"factor_after_runtime_alias": [c, tgt]})
+            elif x == "DimensionalityError":
+                cases.append(f"RFactor {coq_uc({c: F(1)})} {coq_uc({tgt: F(1)})} ODimErr"); desc.append({"factor_after_runtime_alias": [c, tgt]})
+            ck.case(key=("rtalias", tag, gi, c, tgt))
+        bad = ck.coq_mismatches(f"rtalias{tag}{gi}", gen_header(raw_b), cases, "ok")
+        total += len(cases)
+        if bad is None:
+            nbad += 1
+            first = first or {"registry": lines + alias_lines, "coq": "evaluation failed"}
+        elif bad:
+            nbad += len(bad)
+            first = first or dict(rp0, case=desc[bad[0]], coq_case=cases[bad[0]])
+        ck.count("generated registries with run-time aliases")
+    return total, nbad, first
